@@ -190,7 +190,7 @@ fn invalid_box(rng: &mut Rng) -> RawBox {
 /// returns (kind, boxes without scores, suggested threshold for the boundary stream)
 fn scene(rng: &mut Rng, n: usize) -> (&'static str, Vec<RawBox>, Option<f32>) {
     let mut v = Vec::new();
-    let kind = rng.below(12);
+    let kind = rng.below(14);
     match kind {
         0 => {
             for _ in 0..n {
@@ -328,6 +328,59 @@ fn scene(rng: &mut Rng, n: usize) -> (&'static str, Vec<RawBox>, Option<f32>) {
             }
             ("same-angle", v, None)
         }
+        12 | 13 => {
+            // cross-oriented: a HIGH-score flat wide box (aspect 3..8, small height h) rotated by about pi/2 lies along an
+            // upright tall LOWER-score box (height >= 1.2 h / thr, aspect < 1) and covers 60-100% of it, although its own
+            // `height` (the extent along its OWN y axis) is far below thr x the other's height; and the mirrored variant
+            // (a tall narrow box rotated onto a flat upright one).  Scores are explicit: without them rank = height.
+            let thr = *rng.pick(&[0.2f32, 0.25, 0.3, 0.375, 0.4, 0.5, 0.6]);
+            let groups = (n / 2).max(1);
+            for g in 0..groups {
+                if v.len() + 2 > n.max(2) {
+                    break;
+                }
+                let (gx, gy) = (100.0 * g as f32, 50.0f32);
+                let h = *rng.pick(&[1.0f32, 2.0, 3.0]);
+                let tall_h = h / thr * *rng.pick(&[1.2f32, 1.5, 2.0]);
+                let tall_w = h * *rng.pick(&[0.7f32, 1.0, 1.25, 1.5]);
+                let flat_aspect = (tall_h / h * *rng.pick(&[0.8f32, 1.0, 1.2])).clamp(3.0, 12.0);
+                let ang = match rng.below(5) {
+                    0 => std::f32::consts::FRAC_PI_2,
+                    1 => std::f32::consts::FRAC_PI_2 + 0.05,
+                    2 => std::f32::consts::FRAC_PI_2 - 0.08,
+                    3 => 1.2,
+                    _ => -std::f32::consts::FRAC_PI_2,
+                };
+                let (dx, dy) = (rng.dyadic(-2, 2, 3) * h, rng.dyadic(-4, 4, 2));
+                let s_hi = 0.7 + rng.dyadic(0, 15, 6);
+                let s_lo = 0.2 + rng.dyadic(0, 15, 6);
+                let mirrored = rng.chance(1, 4);
+                let (hi, lo) = if !mirrored {
+                    (
+                        RawBox { xc: gx + dx, yc: gy + dy, angle: Some(ang), aspect: flat_aspect, height: h, score: Some(s_hi) },
+                        RawBox { xc: gx, yc: gy, angle: if rng.chance(1, 2) { None } else { Some(0.0) }, aspect: tall_w / tall_h, height: tall_h, score: Some(s_lo) },
+                    )
+                } else {
+                    // a tall narrow high-score box rotated onto a flat upright low-score box
+                    (
+                        RawBox { xc: gx + dx, yc: gy, angle: Some(ang), aspect: tall_w / tall_h, height: tall_h, score: Some(s_hi) },
+                        RawBox { xc: gx, yc: gy, angle: None, aspect: flat_aspect, height: h, score: Some(s_lo) },
+                    )
+                };
+                if rng.chance(1, 2) {
+                    v.push(hi);
+                    v.push(lo);
+                } else {
+                    v.push(lo);
+                    v.push(hi);
+                }
+                if rng.chance(1, 3) && v.len() < n {
+                    // a third, lowest box next to the pair
+                    v.push(RawBox { xc: gx + h, yc: gy + 1.0, angle: Some(0.3), aspect: 1.0, height: 2.0 * h, score: Some(0.1) });
+                }
+            }
+            ("cross-oriented", v, Some(thr))
+        }
         _ => {
             // chain: each box overlaps the next one strongly (suppression by an excluded box must NOT happen)
             let h = *rng.pick(&[8.0f32, 12.0]);
@@ -379,8 +432,16 @@ fn gen_case(rng: &mut Rng, k: usize) {
         1 => (1..=16).map(|i| i as f32 / 16.0).collect(),
         _ => vec![],
     };
+    let preset = kind == "cross-oriented";
     for b in boxes.iter_mut() {
         let s = if levels.is_empty() { rng.dyadic(1, 1023, 10) } else { *rng.pick(&levels) };
+        if preset {
+            // the scene set explicit scores; boxes inserted afterwards get one too
+            if b.score.is_none() {
+                b.score = Some(s);
+            }
+            continue;
+        }
         b.score = match mode {
             0..=2 => None,                                            // no scores: rank = height
             3..=6 => Some(s),
@@ -395,6 +456,7 @@ fn gen_case(rng: &mut Rng, k: usize) {
     }
     // nms threshold in (0,1)
     let thr = match (tsug, rng.below(3)) {
+        (Some(t), _) if preset => t,
         (Some(t), 0) | (Some(t), 1) => t,
         (_, 0) => *rng.pick(&[0.25f32, 0.5, 0.75]),
         (_, 1) => rng.dyadic(1, 63, 6),
@@ -535,6 +597,19 @@ fn main() {
                 run_case(k, "corpus-same-angle-across", 0.1, None, &[ob(0.0, 0.0, 0.9), ob(-2.2 * r, 2.2 * r, 0.8)]);
                 k += 1;
             }
+            // an upright pole (1 x 4) completely covered by a higher-scored long flat box (4.8 x 1.2) turned by 90 degrees
+            run_case(
+                k,
+                "corpus-cross-oriented",
+                0.5,
+                None,
+                &[
+                    RawBox { xc: 10.0, yc: 10.0, angle: None, aspect: 0.25, height: 4.0, score: Some(0.6) },
+                    RawBox { xc: 100.0, yc: 100.0, angle: None, aspect: 0.5, height: 3.0, score: Some(0.5) },
+                    RawBox { xc: 10.0, yc: 10.0, angle: Some(std::f32::consts::FRAC_PI_2), aspect: 4.0, height: 1.2, score: Some(0.9) },
+                ],
+            );
+            k += 1;
             run_case(k, "corpus-empty", 0.5, None, &[]);
             k += 1;
             while k < a.n {
